@@ -50,7 +50,7 @@ def c04(tier):
         # spec/Machine.tla carries the tail flag through if / lambda bodies as R7RS 3.5 defines it, derived forms
         # reach it expanded), and TCALL must rebuild the frame in place (Exec): listing and register trace
         import mach
-        vcov.update(mach.run(verdict, wd, [('tail', 30 if q else 1500)], vlib.seed()))
+        vcov.update(mach.run(verdict, wd, [('tail', 30 if q else 500)], vlib.seed()))
         vcov['tlaps'] = tlaps_arithmetic(wd)
 
     def extra(sessions, ends):
